@@ -25,6 +25,8 @@ CHECKS = {
          'bounded exhaustive enumeration against an absolute coordinate function and reference derivation spans'),
  'C15': ('exploration', '4 C15', 'Newline-bearing grammars x parser/lexer pairs x every ASCII input up to the bound x representation: bytes must give the same observation as str; every TextSlice window (all prefixes/suffixes over {a,newline} up to length 2) must give the str observation shifted by the window start with line/column recomputed absolutely from the buffer, for trees (tokens + full meta) and for errors (class, position, token).',
          'bounded exhaustive differential enumeration (str vs bytes vs all windows) with an absolute coordinate anchor'),
+ 'C09': ('exploration', '4 C09', 'Every pair 0<=n<=m of the stated boxes (straddling the factoring threshold 50 from both sides) x 8 item kinds (in rules and inside terminals) x lalr/earley x every count k in 0..m+2 (lalr) or around the bounds (earley): accept iff n<=k<=m, exactly k consecutive children, no helper nodes; pairs of occurrences sharing the helper-rule cache; ? * + with k=0..6.',
+         'bounded exhaustive enumeration of (n, m, item kind, parser, k) against an arithmetic oracle'),
 }
 NOT_YET = {}
 def main():
